@@ -117,6 +117,22 @@ fn main() {
     drop(t);
     let _ = Difficulty::new().gradual_difficulty_for_mode::<Catch>(&map).map(|mut c| c.nth(1));
     let _ = Difficulty::new().gradual_difficulty_for_mode::<Mania>(&map).map(|mut m| m.nth(1));
+    // Beatmap has public fields too: objects appended without a hit sound (only taiko reads the
+    // sounds, zipped with the objects), so lists with spare capacity reach the gradual calculator
+    if let Ok(mut tampered) = map.clone().convert(GameMode::Taiko, &Default::default()) {
+        let mut extra = tampered.hit_objects.last().cloned().unwrap();
+        extra.start_time += 500.0;
+        tampered.hit_objects.push(extra.clone());
+        extra.start_time += 500.0;
+        tampered.hit_objects.push(extra);
+        let mut g = GradualDifficulty::new(Difficulty::new(), &tampered);
+        let boxed = Box::new(g.next());
+        std::hint::black_box(boxed);
+        while g.next().is_some() {}
+        let mut p = GradualPerformance::new(Difficulty::new(), &tampered);
+        let _ = p.nth(ScoreState::new(), 3);
+        drop(p);
+    }
     // InspectDifficulty has public fields: values that never went through a setter
     for raw in [0.0f64, -0.0, -1.0, f64::NAN, 1e-320, 1e300] {
         let mut ins = Difficulty::new().inspect();
